@@ -634,6 +634,19 @@ pub fn check_c04(ix: &Ix<'_>, v: &mut Vec<Violation>) {
             j += 1;
         }
     }
+    // A PUBREL whose handler failed owes no PUBCOMP, and a PUBREL for an id that is not in use is refused
+    // without any handler: when the same id sees several PUBRELs (re-transmissions) and one of their handlers
+    // failed, which PUBREL a PUBCOMP answers cannot be told from the wire - such PUBCOMPs are counted, not ordered.
+    let ambiguous_pubcomp: Vec<u16> = ix
+        .gates
+        .iter()
+        .filter(|g| g.conn == conn && g.kind == GateKind::Proto && matches!(g.exit, Some((_, Outcome::Err | Outcome::Disconnect(_)))))
+        .filter_map(|g| match &g.desc {
+            GateDesc::Proto { brief, pid: Some(p) } if brief.starts_with("PUBREL") => Some(*p),
+            _ => None,
+        })
+        .filter(|p| reqs.iter().filter(|r| r.kind == "PUBCOMP" && r.pid == Some(*p)).count() > 1)
+        .collect();
     let mut last_idx: Option<usize> = None;
     for e in ix.eps.iter().filter(|e| e.conn == conn) {
         let name = e.pkt.name();
@@ -641,6 +654,12 @@ pub fn check_c04(ix: &Ix<'_>, v: &mut Vec<Violation>) {
             continue;
         }
         let pid = e.pkt.pid();
+        if name == "PUBCOMP" && pid.is_some_and(|p| ambiguous_pubcomp.contains(&p)) {
+            if let Some(r) = reqs.iter_mut().find(|r| r.kind == "PUBCOMP" && r.pid == pid && r.answered == 0) {
+                r.answered += 1;
+            }
+            continue;
+        }
         // which kind of ack answers a publish is C03's business; for ordering a PUBACK written for a
         // QoS 2 publish (or a PUBREC for a QoS 1 one) still is "the response to that request"
         let alt = match name {
